@@ -30,6 +30,9 @@ type Prop struct {
 	LevelNote string
 	DesignRef string
 	Run       func(c *Ctx)
+	// Own386: the check runs its linux/386 configuration itself (the E4 checks re-derive the compiler's obligations per
+	// configuration and keep one ledger); the generic "same rules on a 386 load" re-run of the thorough tier is skipped.
+	Own386 bool
 }
 
 // All is the registry of claimed properties.
